@@ -68,7 +68,8 @@ NUMERIC_QUERIES = [{"t": "dict", "v": [["n", v]]} for v in _NUMS] + [{"t": "list
 def plan(tier, seed):
     thorough = tier == "thorough"
     n = 16
-    return [{"variant": "c" if s % 2 else "py", "part": "programs", "shard": s, "nshards": n, "params": {"programs": 4000 if thorough else 130}} for s in range(n)] + (
+    return [{"variant": "c" if s % 2 else "py", "part": "programs", "shard": s, "nshards": n, "params": {"programs": 4000 if thorough else 130}} for s in range(n)] + [
+        {"variant": "c" if s % 2 else "py", "part": "preempt", "shard": s, "nshards": 4, "params": {}} for s in range(4)] + (
         [{"variant": "c", "part": "repo_tests", "params": {}}] if thorough else [])
 
 
@@ -638,12 +639,98 @@ def _as_op(origins):
     return x or y
 
 
+PREEMPT_TEXTS = ["x://:8080/p", "//:77", "x://user@/p", "file://user@/p", "foo://u:p@:1/?q#f", "//@", "foo://@/p", "http://u:p@h:81/", "http://[fe80::1%eth0]:80/", "https://u@example.com:443/a/b",
+                 "ws://:p@h/", "http://h/p/q.tar.gz?a=1&b=2&a=%20x&c#f%20g", "/rel/p%2Fq/?k=v&k=w", "http://xn--mnchen-3ya.de./%C3%A9?%C3%A9=%E2%82%AC#%F0%9F%98%80", "http://EXAMPLE.com:080/a/../b",
+                 "mailto:u@h", "http://[::1]", "//h", "?x", ""]
+PREEMPT_ACCS = ["raw_host", "host", "authority", "host_subcomponent", "host_port_subcomponent", "raw_user", "user", "raw_password", "password", "explicit_port", "port", "str", "human_repr", "hash",
+                "query", "parts", "raw_parts", "name", "suffix", "path", "query_string", "fragment", "raw_authority", "origin", "parent", "is_default_port", "path_qs"]
+
+
+def _read(u, a):
+    if a == "str":
+        return str(u)
+    if a == "hash":
+        return hash(u) == hash(u)
+    if a == "query":
+        return list(u.query.items())
+    if a in ("human_repr", "origin", "is_default_port"):
+        return getattr(u, a)()
+    return getattr(u, a)
+
+
+def run_preempt(ctx):
+    """EVERY line boundary of a first read as a pre-emption point: a lazily filled object (a cold twin) is read through accessor A under a
+    line tracer; at the k-th line executed inside yarl a second reader reads accessor B of the SAME object (what another thread, or a
+    signal handler, would do there), then A finishes.  Both readers, and every later read, must see the sequential values - a value
+    that is stored and then corrected one statement later is visible to the reader in between, and memoised by it."""
+    import sys
+
+    from yarl import URL
+
+    def in_yarl(frame):
+        fn = frame.f_code.co_filename
+        return "yarl" in fn and fn.endswith((("_url.py"), ("_parse.py"), ("_path.py"), ("_query.py"), ("_quoters.py")))
+
+    i = 0
+    for t in PREEMPT_TEXTS:
+        for enc in (True, False):
+            proto = guarded(URL, t, encoded=enc)
+            if is_exc(proto):
+                continue
+            st = slots(proto)
+            expect = {a: outcome_of(guarded(_read, twin_from_slots(st), a)) for a in PREEMPT_ACCS}
+            for a in PREEMPT_ACCS:
+                for b in (a, "host", "str", "authority"):
+                    i += 1
+                    if not ctx.mine(i):
+                        continue
+                    k = 0
+                    while k < 60:
+                        u = twin_from_slots(st)
+                        state = {"n": 0, "nested": None, "fired": False}
+
+                        def local(frame, event, arg):
+                            if event == "line" and not state["fired"]:
+                                if state["n"] == k:
+                                    state["fired"] = True
+                                    sys.settrace(None)
+                                    state["nested"] = outcome_of(guarded(_read, u, b))
+                                    return None
+                                state["n"] += 1
+                            return local
+
+                        def tracer(frame, event, arg):
+                            return local if (event == "call" and in_yarl(frame) and not state["fired"]) else None
+
+                        sys.settrace(tracer)
+                        try:
+                            outer = outcome_of(guarded(_read, u, a))
+                        finally:
+                            sys.settrace(None)
+                        if not state["fired"]:
+                            break  # fewer than k+1 lines: every boundary of this read has been tried
+                        ctx.count("preemption_points")
+                        ctx.ev(("preempt", a, b, min(k, 20)))
+                        later = {c_: outcome_of(guarded(_read, u, c_)) for c_ in ("host", "authority", "str", "raw_host", a, b)}
+                        bad = [(w, g, e) for w, g, e in [("interleaved reader ." + b, state["nested"], expect[b]), ("pre-empted reader ." + a, outer, expect[a])] + [("later ." + c_, v, expect[c_]) for c_, v in later.items()] if g != e]
+                        if bad:
+                            w, g, e = bad[0]
+                            ctx.fail("history_dependent_outcome", {"part": "preempt", "s": t, "encoded": enc, "outer": a, "nested": b, "line": k},
+                                     f"first read of .{a} on a cold {t!r} pre-empted at its line #{k} by a read of .{b}: {w} gave {str(g)[:120]}, sequentially it is {str(e)[:120]}", fields=["preempt:" + a])
+                            break
+                        k += 1
+
+
 def run(ctx):
     if ctx.part == "repo_tests":
         return run_repo_tests(ctx)
+    if ctx.part == "preempt":
+        return run_preempt(ctx)
     mon = Monitor(ctx)
     mon.install()
     ctx.notes["slot_hook_installed"] = mon.installed
+    if ctx.part == "replay" and ctx.params["replay"]["case"].get("part") == "preempt":
+        return run_preempt(ctx)
     if ctx.part == "replay":
         c = ctx.params["replay"]["case"]
         steps = c.get("steps") or [c["record"]]
@@ -785,6 +872,8 @@ def finalize(merged, results, tier):
         unmet.append("cold replay compared nothing")
     if c.get("slot_writes_unpublished", 0) == 0:
         unmet.append("slot-write hook never fired on object construction: hook not installed")
+    if c.get("preemption_points", 0) == 0:
+        unmet.append("no pre-emption point of a first read was explored")
     if c.get("lru_evictions_observed", 0) == 0:
         unmet.append("no LRU eviction was observed")
     return unmet, {}
